@@ -18,6 +18,10 @@ def r02_1(ctx):
     if not tc:
         return r
     fam = C.family(ctx, tc)
+    # the function that turns a JSX text node into a vnode decides what text is kept: it is held to the same contract
+    tf_ = C.role(ctx, "jsx_text_fn")
+    if tf_ is not None:
+        fam = list(fam) + list(C.family(ctx, tf_))
     hits = 0
     n_calls = 0
     for mb in fam:
